@@ -48,9 +48,26 @@ pub open spec fn tloc<P: Prefix, T>(t: Seq<Node<P, T>>, live: ISet<int>, par: sp
     t_root(t, live) && t_bound(t, live) && t_child(t, live) && t_par(t, live, par)
 }
 
-/// the live set `live` makes `t` a well-linked trie
+/// the live set `live` makes `t` a well-linked trie.  Opaque: executable code only passes it around;
+/// the lemmas below reveal it.
+#[verifier::opaque]
 pub open spec fn twf_live<P: Prefix, T>(t: Seq<Node<P, T>>, live: ISet<int>) -> bool {
     exists|par: spec_fn(int) -> int| tloc(t, live, par)
+}
+
+pub proof fn lemma_twf_intro<P: Prefix, T>(t: Seq<Node<P, T>>, live: ISet<int>)
+    requires exists|par: spec_fn(int) -> int| tloc(t, live, par)
+    ensures twf_live(t, live)
+{
+    reveal(twf_live);
+}
+
+pub proof fn lemma_twf_par<P: Prefix, T>(t: Seq<Node<P, T>>, live: ISet<int>) -> (par: spec_fn(int) -> int)
+    requires twf_live(t, live)
+    ensures tloc(t, live, par)
+{
+    reveal(twf_live);
+    choose|par: spec_fn(int) -> int| tloc(t, live, par)
 }
 
 // ---- global formulation: what readers use ----
@@ -142,7 +159,7 @@ pub proof fn lemma_glob<P: Prefix, T>(t: Seq<Node<P, T>>, live: ISet<int>)
     requires twf_live(t, live)
     ensures tglob(t, live), t_root(t, live), t_bound(t, live), t_child(t, live)
 {
-    let par = choose|par: spec_fn(int) -> int| tloc(t, live, par);
+    let par = lemma_twf_par(t, live);
     lemma_glob_par(t, live, par);
 }
 
@@ -166,8 +183,8 @@ pub proof fn lemma_live_unique<P: Prefix, T>(t: Seq<Node<P, T>>, l1: ISet<int>, 
     requires twf_live(t, l1), twf_live(t, l2)
     ensures l1 =~= l2
 {
-    let p1 = choose|par: spec_fn(int) -> int| tloc(t, l1, par);
-    let p2 = choose|par: spec_fn(int) -> int| tloc(t, l2, par);
+    let p1 = lemma_twf_par(t, l1);
+    let p2 = lemma_twf_par(t, l2);
     assert forall|i: int| l1.contains(i) == l2.contains(i) by {
         if l1.contains(i) { lemma_live_sub(t, l1, p1, l2, p2, i); }
         if l2.contains(i) { lemma_live_sub(t, l2, p2, l1, p1, i); }
@@ -302,7 +319,16 @@ pub open spec fn step_bounds<P: Prefix, T>(t: Seq<Node<P, T>>, live: ISet<int>, 
         && (forall|s: bool| #![trigger chd(t, idx, s)] chd(t, idx, s).is_some() ==> chd(t, idx, s).unwrap() < t.len()
                 && live.contains(chd(t, idx, s).unwrap() as int)
                 && spre(kb(t, idx), kb(t, chd(t, idx, s).unwrap() as int))
+                && kb(t, chd(t, idx, s).unwrap() as int).len() <= 255
                 && kb(t, chd(t, idx, s).unwrap() as int)[kb(t, idx).len() as int] == s)
+}
+
+/// the root is live and has the empty key
+pub proof fn lemma_root<P: Prefix, T>(t: Seq<Node<P, T>>, live: ISet<int>, q: Seq<bool>)
+    requires twf_live(t, live)
+    ensures t.len() >= 1, live.contains(0), kb(t, 0).len() == 0, pre(kb(t, 0), q)
+{
+    lemma_glob(t, live);
 }
 
 pub proof fn lemma_step<P: Prefix, T>(t: Seq<Node<P, T>>, live: ISet<int>, idx: int, q: Seq<bool>)
@@ -327,8 +353,10 @@ pub proof fn lemma_step<P: Prefix, T>(t: Seq<Node<P, T>>, live: ISet<int>, idx: 
     assert forall|s: bool| #![trigger chd(t, idx, s)] chd(t, idx, s).is_some() implies chd(t, idx, s).unwrap() < t.len()
                 && live.contains(chd(t, idx, s).unwrap() as int)
                 && spre(kb(t, idx), kb(t, chd(t, idx, s).unwrap() as int))
+                && kb(t, chd(t, idx, s).unwrap() as int).len() <= 255
                 && kb(t, chd(t, idx, s).unwrap() as int)[kb(t, idx).len() as int] == s by {
         assert(child_ok(t, live, idx, s));
+        assert(live.contains(chd(t, idx, s).unwrap() as int));
     }
     let s = next_bit(kb(t, idx), q);
     assert forall|n: int| #[trigger] on_path_below(t, live, idx, q, n) implies
